@@ -158,6 +158,8 @@ let parse_op (toks : string list) : op =
   | ["load"; k; lz; d] -> OpLoad ((k = "file"), bool_of lz, h d)
   | ["save"] -> OpSave None
   | ["savecap"; k] -> OpSave (Some (n k))
+  | ["savepath"; "bad"] -> OpSavePath false
+  | ["savepath"; "full"] -> OpSavePath true
   | ["validate"] -> OpValidate
   | ["obshdr"] -> OpObsHdr
   | ["obssec"; i] -> OpObsSec (n i)
